@@ -104,10 +104,15 @@ class _VirtualOsClock(object):
 class _FakeRandom(object):
     @staticmethod
     def randint(a, b):
+        # the contract of random.randint: both bounds are integers, a <= b, a <= result <= b
+        if not isinstance(a, int) or not isinstance(b, int) or isinstance(a, bool) or isinstance(b, bool):
+            raise TypeError('randint(%r, %r): integer bounds required' % (a, b))
+        if a > b:
+            raise ValueError('empty range in randrange(%d, %d)' % (a, b + 1))
         i = ENV.rand_calls
         ENV.rand_calls = i + 1
         v = ENV.rand[i % len(ENV.rand)]
-        return v
+        return a + (v - a) % (b - a + 1)
 
 
 def _fake_input(prompt=''):
